@@ -12,6 +12,9 @@ CHECKS = {
  "C05": dict(cat="exploration", tech="runtime monitoring: sender-charge ledger and receipt/consensus-result cross-check at the tx-boundary observer",
    text="Held on the executions produced: for every admitted generated Ethereum transaction the sender's observed balance delta equals receipt gas used x independently recomputed effective price + value moved; rejected transactions have an empty full-store write set; gas used within [intrinsic, limit]; consensus GasUsed equals receipt gas used; cumulative gas is the running sum.",
    note="Exact-charge law is asserted for senders that no generated program can pay (kept out of the address pool); effective price recomputed from the raw transaction and the previous block's base fee.", ref="§4 C05"),
+ "C02": dict(cat="exploration", tech="runtime monitoring: differential execution of every admitted transaction against go-ethereum's own core.ApplyMessage over its own state.StateDB (shadow world), post-state compared account by account",
+   text="Held on the executions produced: each admitted generated transaction is re-executed by the reference state transition under the same block context; error class, VM error, return data, gas used, logs and the (nonce, balance, code hash, full storage, existence) of every account of either world are compared after every transaction, so divergences cannot hide behind later writes.",
+   note="Reference shares the fork's interpreter by the property's own definition; documented differences (coinbase tip, warm coinbase and custom precompiles) applied as a thin wrapper; senders fenced to balance >= gasLimit x feeCap + value.", ref="§4 C02"),
 }
 WIP = "monitor designed in DESIGN.md §4 but not built yet in this revision (work in progress; will be claimed once its check exists and is silent on the unchanged tree)"
 NA = {}
